@@ -32,6 +32,16 @@ def run(ctx, res):
     parsers = {a.split("::")[-1]: D.impl_item(PARSER_TRAIT, a, "parse") for a in D.impls_of(PARSER_TRAIT)}
     fparsers = {a.split("::")[-1]: a for a in D.impls_of(FCI_PARSER)}
     n = [0]
+    # ------------------------------------------------------------------ (0) the FCI contract (a) relies on
+    # (a) treats the FCI member as "announces S, writes exactly [0, S), returns S": that is an assumption of the packet-
+    # level round trip, so it is discharged here for every FCI builder of the crate (the size/write rules of C06)
+    from ..wsumm import Summary
+    from .c06 import check_builder
+    n_fc = 0
+    for B in bs.values():
+        if B.kind == "fci":
+            n_fc += check_builder(res, F, B, Summary(F, B, exact=False))
+    res.floor("FCI builders' size/write cases checked against the trait contract", n_fc, 5)
     # ------------------------------------------------------------------ (a) packet level
     for bname, pname in (("TransportFeedbackBuilder", "TransportFeedback"), ("PayloadFeedbackBuilder", "PayloadFeedback")):
         B = bs.get(bname)
